@@ -12,6 +12,7 @@ LEVEL = "exploration"
 TECHNIQUE = ("deterministic simulation (fault-free pipeline) in the under-sized-cache regime: tables smaller than one statement's working set; oracle = raises, or reference decoder reads back the input")
 LEVEL_NOTE = ('sampled statements x presets; which table is exceeded computed from the workload')
 OPTIMIZED_EVERY = 25      # every 25th run is executed in a child interpreter started with python -O
+PBPY_EVERY = 50           # every 50th run (offset 6) is executed with protobuf's pure-Python backend
 COMPILED_EVERY = 25       # every 25th run (offset 12) is executed in a child that imports a mypyc build of the tree
 RUNS = {"quick": 80000, "thorough": 1500000}
 RULE = ("seeded runs in the under-sized regime: max_prefixes 1..3, max_datatypes 1..3 with generalized literals, "
